@@ -13,7 +13,7 @@ for d in ${SEEDED_DIRS:-seeded/C*_*}; do
     C06_A) cands="C10";; C06_B) cands="C11";; C08_A|C08_B) cands="C08 C07";; C01_B) cands="C11 C01";;
     C09_A) cands="C09 C05";; C05_A) cands="C05 C09";; C15_B) cands="C15 C03";; C03_A|C03_B) cands="C03 C01";;
     C13_A|C13_B) cands="C13 C01";; C02_A) cands="C02";; C12_A|C12_B) cands="C12 C03";; C16_A) cands="C16 C02";;
-    C01_D) cands="C01 C11";; C03_C) cands="C03 C01";; C03_D) cands="C03 C15";; C15_C) cands="C15 C03";; C15_E|C15_F) cands="C15 C03";; C14_C) cands="C14 C11";; C11_F) cands="C11";; C19_D) cands="C19 C11";; C11_C) cands="C11 C19";;
+    C01_D) cands="C01 C11";; C03_C) cands="C03 C01";; C03_D) cands="C03 C15";; C15_C) cands="C15 C03";; C15_E|C15_F) cands="C15 C03";; C14_C) cands="C14 C11";; C11_F) cands="C11";; C03_E) cands="C03 C01";; C02_C) cands="C02";; C09_C) cands="C09 C05";; C07_C) cands="C07";; C19_D) cands="C19 C11";; C11_C) cands="C11 C19";;
   esac
   res=""; ran=""
   for c in $cands; do
